@@ -176,6 +176,40 @@ def _error_kept(fi, pos, ei, bi):
     return True
 
 
+def is_variadic(name):
+    f, extra = callable_of(name)
+    return any(p.kind == p.VAR_POSITIONAL for p in inspect.signature(f).parameters.values())
+
+
+def _many_error_kept(fi, where, ei, bi):
+    """an error among VERY MANY arguments (both sides of numpy's 32-operand limit) is not lost either"""
+    name = GROUP[fi]
+    if exempt(name) or not is_variadic(name):
+        return True
+    f, extra = callable_of(name)
+    for n in (31, 32, 33, 40):
+        args = [BASES[bi]] * n
+        args[[0, n // 2, n - 1][where]] = ERRS[ei]
+        with warnings.catch_warnings():
+            warnings.simplefilter('ignore')
+            try:
+                r = f(*([False] * extra + args))
+            except Exception:
+                return False
+        vals = np.asarray(r, object).ravel().tolist()
+        if not (len(vals) > 0 and all(isinstance(v, XlError) for v in vals)):
+            return False
+    return True
+
+
+def many_error_kept_ok(f0: bool, f1: bool, f2: bool, w0: bool, w1: bool, e0: bool, e1: bool, e2: bool, b0: bool) -> bool:
+    """
+    pre: sel(f0, f1, f2) < len(GROUP) and sel(e0, e1, e2) < 7 and sel(w0, w1) < 3
+    post: _
+    """
+    return concrete(_many_error_kept, sel(f0, f1, f2), sel(w0, w1), sel(e0, e1, e2), 1 if b0 else 0)
+
+
 def error_kept_ok(f0: bool, f1: bool, f2: bool, p0: bool, p1: bool, p2: bool, e0: bool, e1: bool, e2: bool, b0: bool) -> bool:
     """
     pre: sel(f0, f1, f2) < len(GROUP) and sel(e0, e1, e2) < 7 and sel(p0, p1, p2) < 5
